@@ -101,11 +101,19 @@ def shard(ctx):
         layout = rng.choice(["flat", "flat", "same-basename", "directory"])
         ctx.res.counts["param-layout:" + layout] += 1
         ipaths = []
+        sl = {}
         for i, p in enumerate(Pm):
             as_json = rng.random() < 0.5
             rel = {"flat": "p%d.json" % i, "same-basename": "env%d/params.%s" % (i, "json" if as_json else "yaml"), "directory": "pdir/e%d/params.json" % i}[layout]
             ipaths.append(rel)
-            fl[rel] = json.dumps(p) if as_json else "".join("%s: %s\n" % (k, json.dumps(v)) for k, v in p.items())
+            content_ = json.dumps(p) if as_json else "".join("%s: %s\n" % (k, json.dumps(v)) for k, v in p.items())
+            if rng.random() < 0.3:
+                # the parameter file is a symbolic link to a regular file kept elsewhere (shared parameter sets are commonly linked in)
+                fl["store/real%d.data" % i] = content_
+                sl[rel] = "store/real%d.data" % i
+                ctx.res.counts["param_files_as_symlinks"] += 1
+            else:
+                fl[rel] = content_
 
         if layout == "directory":
             # files that are not data files live next to the parameter files and must simply be ignored, wherever they sort
@@ -129,16 +137,16 @@ def shard(ctx):
         for structured in (False, True):
             tail = ["--structured", "-S", "none", "-o", "json"] if structured else ["-S", "none", "-o", "json"]
             mode = "structured" if structured else "plain"
-            ref = ctx.w.run({"k": "cli", "argv": ["validate", "-r", "{S}/r.guard", "-d", "{S}/m.json"] + (["-d", "{S}/m2.json"] if extra_data else []) + tail, "files": fl})
+            ref = ctx.w.run({"k": "cli", "argv": ["validate", "-r", "{S}/r.guard", "-d", "{S}/m.json"] + (["-d", "{S}/m2.json"] if extra_data else []) + tail, "files": fl, "symlinks": sl})
             ref_st = statuses_of(ref, structured)
             if ref_st is None:
                 ctx.inconclusive("reference-error-or-crash")
                 continue
             for order in orders:
                 iargs = iargs_for(order)
-                r = ctx.w.run({"k": "cli", "argv": ["validate", "-r", "{S}/r.guard", "-d", "{S}/d.json"] + (["-d", "{S}/d2.json"] if extra_data else []) + iargs + tail, "files": fl})
+                r = ctx.w.run({"k": "cli", "argv": ["validate", "-r", "{S}/r.guard", "-d", "{S}/d.json"] + (["-d", "{S}/d2.json"] if extra_data else []) + iargs + tail, "files": fl, "symlinks": sl})
                 ctx.res.cases += 1
-                case = {"rules": rtext, "files": fl, "order": list(order), "structured": structured, "overlap": overlap, "extra_data": extra_data, "iargs": iargs}
+                case = {"rules": rtext, "files": fl, "symlinks": sl, "order": list(order), "structured": structured, "overlap": overlap, "extra_data": extra_data, "iargs": iargs}
                 ctx.res.counts["%s:%s" % (mode, "overlap" if overlap else "disjoint")] += 1
                 if overlap:
                     sig = core.crash_signature(r)
@@ -175,10 +183,10 @@ def shard(ctx):
             ref_st = statuses_of(ref, True)
             for structured in (False, True):
                 tail = ["--structured", "-S", "none", "-o", "json"] if structured else ["-S", "none", "-o", "json"]
-                r = ctx.w.run({"k": "cli", "argv": ["validate", "--payload"] + iargs + tail, "files": fl, "stdin": json.dumps({"rules": [rtext], "data": [json.dumps(Dm)]})})
+                r = ctx.w.run({"k": "cli", "argv": ["validate", "--payload"] + iargs + tail, "files": fl, "symlinks": sl, "stdin": json.dumps({"rules": [rtext], "data": [json.dumps(Dm)]})})
                 ctx.res.cases += 1
                 mode = "payload-structured" if structured else "payload-plain"
-                case = {"rules": rtext, "files": fl, "order": list(range(len(Pm))), "structured": structured, "payload": True, "iargs": iargs}
+                case = {"rules": rtext, "files": fl, "symlinks": sl, "order": list(range(len(Pm))), "structured": structured, "payload": True, "iargs": iargs}
                 if r.get("r") != "ok" or ref_st is None:
                     ctx.inconclusive("payload-error-or-crash")
                     continue
@@ -191,20 +199,21 @@ def shard(ctx):
 
 def replay(case, w):
     fl = case["files"]
+    sl = case.get("symlinks", {})
     structured = case["structured"]
     tail = ["--structured", "-S", "none", "-o", "json"] if structured else ["-S", "none", "-o", "json"]
     iargs = case.get("iargs") or [x for i in case["order"] for x in ("-i", "{S}/p%d.json" % i)]
     if case.get("payload"):
         M = json.loads(fl["m.json"])
         ref = w.run({"k": "cli", "argv": ["validate", "--payload", "--structured", "-S", "none", "-o", "json"], "stdin": json.dumps({"rules": [case["rules"]], "data": [fl["m.json"]]})})
-        r = w.run({"k": "cli", "argv": ["validate", "--payload"] + iargs + tail, "files": fl, "stdin": json.dumps({"rules": [case["rules"]], "data": [fl["d.json"]]})})
+        r = w.run({"k": "cli", "argv": ["validate", "--payload"] + iargs + tail, "files": fl, "symlinks": sl, "stdin": json.dumps({"rules": [case["rules"]], "data": [fl["d.json"]]})})
         return statuses_of(r, structured) == statuses_of(ref, True), "payload"
     two = case.get("extra_data")
-    r = w.run({"k": "cli", "argv": ["validate", "-r", "{S}/r.guard", "-d", "{S}/d.json"] + (["-d", "{S}/d2.json"] if two else []) + iargs + tail, "files": fl})
+    r = w.run({"k": "cli", "argv": ["validate", "-r", "{S}/r.guard", "-d", "{S}/d.json"] + (["-d", "{S}/d2.json"] if two else []) + iargs + tail, "files": fl, "symlinks": sl})
     if case.get("overlap"):
         ok = r.get("r") == "err" and not r.get("out", "").strip()
         return ok, "result %s code %s" % (r.get("r"), r.get("code"))
-    ref = w.run({"k": "cli", "argv": ["validate", "-r", "{S}/r.guard", "-d", "{S}/m.json"] + (["-d", "{S}/m2.json"] if two else []) + tail, "files": fl})
+    ref = w.run({"k": "cli", "argv": ["validate", "-r", "{S}/r.guard", "-d", "{S}/m.json"] + (["-d", "{S}/m2.json"] if two else []) + tail, "files": fl, "symlinks": sl})
     return statuses_of(r, structured) == statuses_of(ref, structured) and r.get("code") == ref.get("code"), "codes %s %s" % (r.get("code"), ref.get("code"))
 
 
